@@ -331,20 +331,25 @@ def evaluate(pid, res, tier, seed, a, t0, quiet=False):
                 viols.append({"rule": "C19-R4", "key": "%s|%s|%s" % (q, rule, fk), "detail": "rule %s of %s fails only in configuration(s) %s and holds in %s: behaviour differs between features/profiles. %s" % (
                     rule, q, sorted(info["cfgs"]), sorted(holds_in), v["detail"][:300]), "where": v["where"], "config": ",".join(sorted(info["cfgs"]))})
         counts["C19-R4"] = counts.get("C19-R4", 0) + sum(sum(pr["counts"].values()) for c in okc for q, pr in c["props"].items() if q != "C19")
-        # count-delta between configurations that differ only in debug assertions
+        # instance-count differences between configurations that differ only in debug assertions are reported as
+        # information, not as violations: debug-only checks legitimately add judged sites (e.g. the resolvers slice a
+        # second array inside debug_assert!), so a count delta is not a necessary condition of the property. What such
+        # debug-only code may do is decided by C19-R3 (G-DBG: effect-free) and by the C03-R2 inventory per profile.
         byf = {}
         for c in okc:
             byf.setdefault(c["describe"].split(" debug_assertions=")[0], []).append(c)
-        for feats, cs in byf.items():
+        for feats, cs in sorted(byf.items()):
             if len(cs) == 2:
                 a_, b_ = cs
-                for q in a_["props"]:
+                for q in sorted(a_["props"]):
                     if q == "C19":
                         continue
                     ca, cb = a_["props"][q]["counts"], b_["props"].get(q, {}).get("counts", {})
                     for r_ in sorted(set(ca) | set(cb)):
                         if ca.get(r_, 0) != cb.get(r_, 0):
-                            viols.append({"rule": "C19-R4", "key": "count-delta|%s|%s|%s" % (feats, q, r_), "detail": "rule %s judges %d instances with debug assertions on and %d with them off (%s): the set of judged sites depends on the build profile" % (r_, ca.get(r_, 0), cb.get(r_, 0), feats), "where": None, "config": a_["config"]})
+                            n_ = "info: rule %s judges %d instances in %s and %d in %s (debug-only checks add sites; not a violation)" % (r_, ca.get(r_, 0), a_["config"], cb.get(r_, 0), b_["config"])
+                            if n_ not in notes:
+                                notes.append(n_)
     # de-duplicate violations across configurations by (rule, family key)
     known = load_known()
     uniq = {}
